@@ -112,6 +112,14 @@ def scanner_library(seed, idx, k=None):
             source += ('\n/**\n * foo_arrays%d:\n * @data: (array %s): bytes\n * @n_used: (%s): used\n * @names: (array %s) (nullable): names\n *\n'
                        ' * Returns: (array %s) (transfer none): numbers\n */\n' % (
                            i, ' '.join(opts), 'out' if 'length=n_used' in ropts and False else 'in', rng.choice(['zero-terminated=1', 'fixed-size=2', 'zero-terminated=1 fixed-size=3']), ropts))
+        # rename-to pairs (shadows / shadowed-by): a function and a method
+        header += 'void foo_shadow_base (gint x);\nvoid foo_shadow_base_full (gint x, gint y);\n'
+        source += '\n/**\n * foo_shadow_base_full: (rename-to foo_shadow_base)\n * @x: x\n * @y: y\n */\n'
+        for c in model['classes']:
+            if c['methods'] == 2:
+                us = 'foo_' + objgen.uscore(c['name'][3:])
+                source += '\n/**\n * %s_method1: (rename-to %s_method0)\n * @self: self\n * @x: x\n */\n' % (us, us)
+                break
         # boxed types without a C structure of their own (bare <glib:boxed>) get their constructor and a method through annotations
         for b in model['boxed']:
             if b['decl'] == 'none':
